@@ -384,12 +384,23 @@ def optimize_circuit(seq):
                         # todo treat it as a failed merge for now
                         i += 1
                         continue
+                    # operations with measured parameters also sit on the wires of the
+                    # subsystems they depend on: the two must be neighbours there as well,
+                    # and the merge has to be carried out on all of these wires
+                    wires = [grid[r.ind] for r in a.get_dependencies() | b.get_dependencies()]
+                    spots = [
+                        next((j for j in range(len(w) - 1) if w[j] is a and w[j + 1] is b), None)
+                        for w in wires
+                    ]
+                    if None in spots:
+                        i += 1
+                        continue
                     op = a.op.merge(b.op)
-                    # merge was successful, delete the old ops
-                    del q[i : i + 2]
-                    # insert the merged op (unless it's identity)
-                    if op is not None:
-                        q.insert(i, Command(op, a.reg))
+                    # merge was successful, replace the old ops by
+                    # the merged op (unless it's identity)
+                    merged = [] if op is None else [Command(op, a.reg)]
+                    for w, j in zip(wires, spots):
+                        w[j : j + 2] = merged
                     # move one spot backwards to try another merge
                     if i > 0:
                         i -= 1
